@@ -38,6 +38,7 @@ type Program struct {
 	modChanged bool
 	usedIntrinsics map[string]bool
 	assumedInvs    map[string]bool
+	assumedCts     map[string]bool // contracts whose ensures were assumed at a call site (value: trusted)
 	missing []string
 	eventCache map[*ssa.Function]map[string]bool
 	implCache map[string][]implRec
@@ -419,4 +420,13 @@ func (P *Program) noteAssumedInv(name string) {
 		P.assumedInvs = map[string]bool{}
 	}
 	P.assumedInvs[name] = true
+}
+
+
+// noteAssumedContract records a callee contract whose postconditions a verified caller relied on.
+func (P *Program) noteAssumedContract(key string, trusted bool) {
+	if P.assumedCts == nil {
+		P.assumedCts = map[string]bool{}
+	}
+	P.assumedCts[key] = trusted
 }
